@@ -184,6 +184,28 @@ theorem mapM_escapeKV_pre (i : Impl) (kvs : List (Str × Arg)) :
     rw [List.map_cons, List.mapM_cons, ih]
     simp [escapeKV, escapeOp_markup, Except.map]
 
+
+/-! ### unescape on text without `&` -/
+
+theorem replaceGo_no_head (p : Char) (ps new : Str) : ∀ (s : Str), p ∉ s → replaceGo (p :: ps) new 0 s = s := by
+  intro s
+  induction s with
+  | nil => intro _; rfl
+  | cons c cs ih =>
+    intro h
+    have hc : p ≠ c := fun e => h (by simp [e])
+    have hcs : p ∉ cs := fun hm => h (by simp [hm])
+    have : (p :: ps).isPrefixOf (c :: cs) = false := by simp [List.isPrefixOf, hc]
+    simp only [replaceGo, this, Bool.false_eq_true, ↓reduceIte, ih hcs]
+
+theorem replace_no_head (p : Char) (ps new s : Str) (h : p ∉ s) : replace (p :: ps) new s = s := by
+  simp [replace, replaceGo_no_head p ps new s h]
+
+theorem unescape_no_amp (s : Str) (h : '&' ∉ s) : unescape s = s := by
+  unfold unescape
+  simp only [qt, gt, lt, amp]
+  rw [replace_no_head _ _ _ _ h, replace_no_head _ _ _ _ h, replace_no_head _ _ _ _ h, replace_no_head _ _ _ _ h]
+
 /-! ### striptags -/
 
 theorem stripTagsGo_no_lt : ∀ (f : Nat) (s : Str), '<' ∉ s → stripTagsGo f s = s := by
